@@ -28,7 +28,9 @@ func init() {
 				ruleC11M2(r, pk) // registered as M2: decoder literals are complete and zero literals are acceptable to the decoder itself
 			}
 			le := newLockEngine(r.P)
-			ruleLockPairingFor(r, le, "D5", "the wire read path never wedges on a lock: every function of package wire that takes a lock releases it on every path (an unsolicited frame must not leave a mutex held)", func(fn *ssa.Function) bool { return fnPkgPath(fn) == modPath+"/wire" && (le.Info(fn).Events > 0 || len(le.Info(fn).Reports) > 0) }, 10)
+			ruleLockPairingFor(r, le, "D5", "the wire read path never wedges on a lock: every function of package wire that takes a lock releases it on every path (an unsolicited frame must not leave a mutex held)", func(fn *ssa.Function) bool {
+				return fnPkgPath(fn) == modPath+"/wire" && (le.Info(fn).Events > 0 || len(le.Info(fn).Reports) > 0)
+			}, 10)
 		},
 	})
 }
